@@ -152,6 +152,13 @@ def apply_op(lab, op, **runkw):
         names = [n for n in lab.cfg.disknames if n != op[1]]
         lab.cfg = lab.cfg.clone(disknames=names, ndisks=len(names))
         lab.write_conf()
+    elif k == "adddisk":
+        # ("adddisk", name, index): a new, empty data disk enters the configuration at that place of the list
+        names = list(lab.cfg.disknames)
+        names.insert(op[2], op[1])
+        os.makedirs(lab.p(op[1]), exist_ok=True)
+        lab.cfg = lab.cfg.clone(disknames=names, ndisks=len(names))
+        lab.write_conf()
     elif k == "cmd":
         return lab.run(op[1], *op[2:], **runkw)
     elif k == "cmd-eio":
